@@ -34,9 +34,15 @@ Technique (numbers = the ALLOWED devices of RULES_GUIDE.md "What counts as stati
       source term of the stream), 2 (how every path of the iteration ends), 4 (sign facts about decoded integers decided
       on a path are reused later on it; forks over zero / non-zero of an argument value).  Lemmas Z0, N0.
   R4  as R2, for parse_recover_binary: 3, 5 (per TransformStep member), 2, 6.
-  R5  6 (the code's set constants folded), 3 (membership condition of every element kept as a term; the option set is a
-      symbolic subset of a constant universe), 5 (case analysis over the outcomes of the group tests - boolean flags), set
-      algebra on constants.  Lemma S0.
+  R5  6 (the code's set constants folded), 3 (membership condition of every element kept as a term - a filtered
+      comprehension or `if c: S.add(x)` in a loop over a constant; the option set is a symbolic subset of a constant
+      universe; every comparison of it with a constant set - issuperset / issubset, >=, <=, >, <, ==, !=, its truth, its
+      len() against 0 / the size of the universe - is a recorded set test that forks the path), 4 + 5 (abstract domain
+      none / some-but-not-all / all per ATOM, the atoms being the regions into which the code's own constant sets and the
+      three reference groups cut the universe; case analysis over the product of these - 18 abstract states for the
+      unchanged code, every one standing for at least one flag vector and all vectors of a state taking the same path -
+      each set test has a definite value in a state, the path the state selects is compared with what the encoding
+      prescribes there), set algebra on constants.  Lemmas S0, S1, S2.
   R6  1 (attribute reads on values typed as cstruct instances; syntax trees of the installed dissect.cstruct sources).
   R7  1, 6 (table keys); 3 (entries applied to a symbolic argument); execute list: 3, 5 (one run per InjectExecutor
       member of CS_DEF), 2, lemmas D1, D2, B1, B2, I0; process-inject transform: 3 with forks over the symbolic tests
@@ -54,6 +60,13 @@ Technique (numbers = the ALLOWED devices of RULES_GUIDE.md "What counts as stati
       form "window (offset, length) of the parameter" with offset / length as linear forms over the decoded integers -
       compared in that polynomial normal form with the prescribed window (2, L - 4), L = u16be at offset 0), 4 (upper
       bound on L read off the linear form of a decided comparison, for an explicit empty-header exit).  Lemmas W0, D2.
+  R11 1 (decorators of the decoder functions resolved through the import table; the decoders are the package functions the
+      entries of SETTING_TO_PRETTYFUNC refer to plus the package functions whose result they return unchanged; stores into /
+      loads from names that are not locals of the function: module-level objects, globals, function attributes, mutable
+      default arguments; memoising wrappers applied at module level), 3 (def-use: the defining expressions the returned /
+      stored value can come from classify it as mutable - a list / dict / set display or constructor, a concatenation of
+      those - or immutable - constants, str / bytes / int / tuple / frozenset constructors, string methods, digests).
+      Trusted library fact: functools.lru_cache / functools.cache return the SAME object for equal arguments.
 
 Lemmas (each used by a transfer rule below; anything else about an assumed or symbolic value stays undecided)
   D1  a 1-byte string decodes to the same integer in both byte orders (nothing to reorder).
@@ -67,7 +80,14 @@ Lemmas (each used by a transfer rule below; anything else about an assumed or sy
       dropped before reads are compared.
   N0  an unsigned decode and a length are >= 0: `x >= k`, `x < k` (k <= 0) are constant, `x > 0` is `x != 0`.
   S0  A >= B for a symbolic subset A of a constant universe and a constant B: false if B has an element outside the
-      universe (or already removed), true if every element of B is in A unconditionally, else a boolean unknown.
+      universe (or already removed), true if every element of B is in A unconditionally, else a boolean unknown; A <= B:
+      true if every element that may be in A is in B, false if an unconditional element of A is not, else unknown;
+      A == B is both, A > B is (A >= B and not A <= B), A < B likewise; `if A:` is `not A == {}`.
+  S1  for a subset A of a finite set U: len(A) == 0 iff A is empty, len(A) == len(U) iff A >= U, len(A) > len(U) never.
+  S2  (abstract states) let the atoms be the classes of "no constant set of the code / reference group separates x and y".
+      If A holds none (E), some but not all (P, atoms of >= 2 elements) or all (F) of each atom, then for unions of atoms B
+      and R:  A \ R >= B iff every atom of B is F and outside R;  A \ R <= B iff every atom outside B is E or inside R.
+      Every combination of E / P / F is realised by some subset, so a mismatch in a state is a mismatch for a flag vector.
   P0  for bytes x and separator s: x.partition(s)[0], x.split(s, 1)[0] and x.split(s)[0] are each "x up to the first
       occurrence of s (all of x if there is none)"; the r-variants / strip cut elsewhere.
   W0  byte windows: x[a:b] is the b-a bytes of x at offset a (bounds non-negative and inside x for a well-formed
@@ -87,6 +107,7 @@ from __future__ import annotations
 import ast
 import dataclasses
 import glob
+import itertools
 import os
 
 from csverif import tables
@@ -119,17 +140,24 @@ def run(ctx):
         "selector 0->build target, 1->'output'), the recover parser the prescribed literal with True or the decoded length, "
         "the execute-list parser the prescribed argument reads per InjectExecutor, the section-table parser one entry per "
         "non-zero (start, end) in stream order, and after every well-formed step the loop must go on; every integer decoded "
-        "in the program parsers is a 4-byte big-endian unsigned decode of a whole 4-byte read; BeaconGate group tests "
-        "analysed over all outcomes of the (symbolic) subset tests; pretty-function table entries applied to a symbolic "
+        "in the program parsers is a 4-byte big-endian unsigned decode of a whole 4-byte read; BeaconGate: the option set is a "
+        "symbolic subset of the flag names, every comparison of it with a constant set (issuperset, >=, >, ==, truth, len ...) is a "
+        "recorded set test, and the result of the path taken is compared with the prescribed one ('All' alone / labels of the "
+        "completely enabled groups in the order Comms, Core, Cleanup / the left-over names) in every abstract state 'none, some or all "
+        "of each group enabled' (18 states standing for all 2^23 flag vectors); pretty-function table entries applied to a symbolic "
         "argument ('which decoder is applied to the data'); attributes used on cstruct instances checked against the "
         "installed dissect.cstruct sources; derived properties read the setting their name says; domains / uris are the first / "
         "second member of each pair of domain_uri_pairs, de-duplicated (if at all) by that same member; the pivot frame header "
         "decoder returns exactly the window (offset 2, length L - 4) of the data, L the big-endian unsigned 16-bit prefix at "
-        "offset 0 (stream reads and slices brought to one window normal form, lengths compared as linear forms)."
+        "offset 0 (stream reads and slices brought to one window normal form, lengths compared as linear forms); every decoder a "
+        "pretty-function entry refers to returns a value of its own: a mutable result (list of steps) is not kept by a memoising "
+        "decorator / wrapper, a module-level object, a global, a function attribute or a mutable default argument and handed out again."
     )
     rep.not_decided = ["decoded byte arguments for all programs", "parse_gargle endianness (no independent reference)", "killdate formatting, IPv4 rendering", "whether domains / uris are de-duplicated at all (only by which member)",
                        "a signed decode of the frame-header length prefix (undecided)",
                        "any test on an assumed or symbolic value that the lemmas of the module docstring do not decide (the obligation is then undecided)",
+                       "BeaconGate: a test on the option set other than a comparison with a constant set, its truth or its size (R5 undecided)",
+                       "R11: retention of a decoded value through channels other than decorators, module-level wrappers, stores into / loads from non-local names (e.g. caches kept inside BeaconConfig instances, which are per object); a retained value whose mutability is not known is undecided",
                        "lists that a loop both modifies and inspects; scalars re-bound in a loop (unknown; obligations depending on them are undecided)"]
     rep.trusted_base = ["CPython ast", "C-definition parser", "reference opcode tables in csverif/tables.py and _BUILD_SELECTORS (rules/c03.py)",
                         "installed dissect.cstruct sources under /venv",
@@ -144,7 +172,11 @@ def run(ctx):
                         "lemma I0: for a 1-byte string b, b[0] and ord(b) are its unsigned value",
                         "lemma Z0: read(0) returns b'' and does not move the cursor",
                         "lemma N0: an unsigned decode and a length are >= 0",
-                        "lemma S0: superset test of a symbolic subset of a constant universe against a constant set",
+                        "lemma S0: superset / subset / equality / proper-superset tests of a symbolic subset of a constant universe against a constant set",
+                        "lemma S1: for a subset A of a finite set U, len(A) == 0 iff A is empty and len(A) == len(U) iff A >= U",
+                        "lemma S2: set tests have a definite value when the option set holds none / some / all of each atom of the partition generated by the code's constant sets and the reference groups; every such state is realised by a flag vector (the flags are independent)",
+                        "functools.lru_cache / functools.cache hand out the same result object for equal arguments (library semantics)",
+                        "classification of expressions as mutable (list / dict / set displays and constructors, their concatenations) or immutable (constants, str / bytes / int / tuple / frozenset constructors, string and digest methods) in rules/c03.py::_mutability",
                         "lemma P0: x.partition(s)[0], x.split(s, 1)[0], x.split(s)[0] are 'x up to the first s'",
                         "lemma C0: latin-1 (and its aliases) maps every byte to exactly one character",
                         "lemma W0: byte windows - slices with non-negative in-range bounds, x[:-k], nested slices and complete stream reads denote (offset, length) windows of the data",
@@ -161,6 +193,7 @@ def run(ctx):
     r8(ctx)
     r9(ctx)
     r10(ctx)
+    r11(ctx)
 
 
 def r1(ctx):
@@ -386,7 +419,7 @@ def _deps(v) -> frozenset:
         out = frozenset()
         for a in v.args:
             out |= _deps(a)
-        if v.op in ("superset", "rest"):
+        if v.op in ("settest", "rest"):
             return out | frozenset({("set", v.args[0])})
         if v.op == "list":
             return frozenset({("list", v.args[0])})  # content of a list the loop modifies: a free unknown
@@ -412,7 +445,7 @@ def _stable(v, depth=0) -> bool:
     if isinstance(v, _Unk):
         return not (v.deps & {"lost", "unbound"}) and bool(v.deps)
     if isinstance(v, _T):
-        if v.op in ("superset", "rest", "tell", "call", "new", "invoke", "list") or v.op.startswith("meth:"):
+        if v.op in ("settest", "rest", "tell", "call", "new", "invoke", "list") or v.op.startswith("meth:"):
             return False
         return all(_stable(a, depth + 1) for a in v.args)
     if isinstance(v, _En):
@@ -578,6 +611,16 @@ class _Ev:
         return out
 
     def decide(self, st, v, node):
+        # truth of a symbolic subset is "it is not the empty set": a set test like any other
+        flip, core = False, v
+        while isinstance(core, _T) and core.op == "not":
+            core, flip = core.args[0], not flip
+        if self.is_sym(st, core):
+            r = self.set_test(st, "eq", core, frozenset(), node)
+            if flip:
+                v = r
+            else:
+                v = (not r) if isinstance(r, bool) else _T("not", (r,))
         t = self.truth(st, v)
         if t is not None:
             return t
@@ -627,7 +670,10 @@ class _Ev:
             self.augassign(s, st)
             return [(st, None)]
         if isinstance(s, ast.If):
-            t = self.decide(st, self.ev(s.test, st), s.test)
+            v = self.ev(s.test, st)
+            if not s.orelse and st.depth == 0 and self.truth(st, v) is None and self._conditional_adds(s, v, st):
+                return [(st, None)]
+            t = self.decide(st, v, s.test)
             return self.block(s.body if t else s.orelse, st)
         if isinstance(s, ast.While):
             return self._while(s, st)
@@ -672,6 +718,30 @@ class _Ev:
                 out = out2
             return out
         raise _Stop(f"statement {type(s).__name__} is not modelled")
+
+    def _conditional_adds(self, s, cond, st):
+        """`if c: S.add(x)` with a test that is not known is  S = S | {x if c}:  S becomes a collection selected by
+        conditions (like a filtered set comprehension) instead of forking the path.  False when s is not of that form."""
+        todo = []
+        for b in s.body:
+            c = b.value if isinstance(b, ast.Expr) else None
+            if not (isinstance(c, ast.Call) and isinstance(c.func, ast.Attribute) and c.func.attr == "add" and len(c.args) == 1 and not c.keywords):
+                return False
+            if not isinstance(c.func.value, ast.Name) or not isinstance(c.args[0], (ast.Name, ast.Constant)):
+                return False
+            recv, x = self.ev(c.func.value, st), self.ev(c.args[0], st)
+            o = st.heap.get(recv.oid) if isinstance(recv, _Ref) else None
+            if not self.hashable_known(x) or not (isinstance(o, _HSet) or (isinstance(o, _HSym) and o.kind == "set" and o.elems is not None and not o.subs and o.root == recv.oid)):
+                return False
+            todo.append((recv, x))
+        for recv, x in todo:
+            o = st.heap[recv.oid]
+            if isinstance(o, _HSet):
+                self.guard_mut(st, recv.oid)
+                o = st.heap[recv.oid] = _HSym(recv.oid, "set", {e: True for e in o.items}, (), s)
+            for d in (o.elems, o.init):
+                d[x] = cond if x not in d else (True if d[x] is True else _T("or", (d[x], cond)))
+        return bool(todo)
 
     def _enter_loop(self, s, st):
         if st.depth == 0 and st.in_loop is None:
@@ -1150,32 +1220,51 @@ class _Ev:
                     del o.elems[e]
         st.events.append(("sub", o.root, fs))
 
-    def superset(self, st, big, small, node):
-        """value of `big >= small` for set-like values"""
-        ob = st.heap.get(big.oid) if isinstance(big, _Ref) else None
-        fs_small = self.as_set(small, st)
-        if isinstance(ob, _HSym) and fs_small is not None:
-            r = _T("superset", (ob.root, fs_small, len(st.events)))
-            if ob.elems is not None:
+    _MIRROR = {"superset": "subset", "subset": "superset", "psuperset": "psubset", "psubset": "psuperset", "eq": "eq"}
+
+    def set_test(self, st, kind, a, b, node):
+        """value of a set comparison `a <kind> b`, kind one of superset (>=), subset (<=), psuperset (>), psubset (<), eq.
+
+        A comparison of a symbolic subset A' (the option set minus what has been removed from it) with a constant set B is
+        decided where lemma S0 decides it and is a boolean unknown (term `settest`) otherwise; every such test is recorded
+        as an event with the sets removed so far, so that a rule can evaluate it in an abstract state of the subset."""
+        oa = st.heap.get(a.oid) if isinstance(a, _Ref) else None
+        ob = st.heap.get(b.oid) if isinstance(b, _Ref) else None
+        if isinstance(ob, _HSym) and not isinstance(oa, _HSym):
+            a, b, oa, ob, kind = b, a, ob, oa, self._MIRROR[kind]
+        fs_b = self.as_set(b, st)
+        if isinstance(oa, _HSym) and fs_b is not None:
+            sup = sub = None
+            if oa.elems is not None:
+                # S0.  A' >= B: false if an element of B is outside the universe / already removed, true if all are in A'
+                # unconditionally.  A' <= B: true if every element that may be in A' is in B, false if an unconditional one is not.
                 conds = []
-                for x in fs_small:
-                    hit = [c for e, c in ob.elems.items() if self.key_eq(e, x) is True]
+                for x in fs_b:
+                    hit = [c for e, c in oa.elems.items() if self.key_eq(e, x) is True]
                     if not hit:
-                        r = False
+                        sup = False
                         break
                     conds.append(hit[0])
-                if r is not False and all(c is True for c in conds):
-                    r = True
-            st.events.append(("superset", ob.root, fs_small, r))
+                if sup is None and all(c is True for c in conds):
+                    sup = True
+                outside = [c for e, c in oa.elems.items() if not any(self.key_eq(e, x) is True for x in fs_b)]
+                sub = True if not outside else (False if any(c is True for c in outside) else None)
+            r = {"superset": sup, "subset": sub, "eq": _and3((sup, sub)), "psuperset": _and3((sup, _not3(sub))), "psubset": _and3((sub, _not3(sup)))}[kind]
+            if r is None:
+                r = _T("settest", (oa.root, kind, fs_b, len(st.events)))
+            st.events.append(("settest", oa.root, kind, fs_b, tuple(oa.subs), r))
             return r
-        fs_big = self.as_set(big, st)
-        if fs_big is not None and fs_small is not None:
-            return fs_big >= fs_small
-        os_ = st.heap.get(small.oid) if isinstance(small, _Ref) else None
-        if isinstance(os_, _HSym) and fs_big is not None and os_.elems is not None:
-            if all(any(self.key_eq(e, x) is True for x in fs_big) for e in os_.elems):
-                return True
-        return _T("cmp", (">=", big, small))
+        fs_a = self.as_set(a, st)
+        if fs_a is not None and fs_b is not None:
+            return {"superset": fs_a >= fs_b, "subset": fs_a <= fs_b, "eq": fs_a == fs_b, "psuperset": fs_a > fs_b, "psubset": fs_a < fs_b}[kind]
+        return _T("cmp", (kind, a, b))
+
+    def superset(self, st, big, small, node):
+        """value of `big >= small` for set-like values"""
+        return self.set_test(st, "superset", big, small, node)
+
+    def is_sym(self, st, v):
+        return isinstance(v, _Ref) and isinstance(st.heap.get(v.oid), _HSym)
 
     def list_extend(self, o, val, st):
         self.note_mut(st, o)
@@ -1333,6 +1422,27 @@ class _Ev:
         return res
 
     def compare(self, op, a, b, st, node):
+        if isinstance(op, (ast.Eq, ast.NotEq)) and (self.is_sym(st, a) or self.is_sym(st, b)) and a != b:
+            other = b if self.is_sym(st, a) else a
+            if self.as_set(other, st) is not None:
+                r = self.set_test(st, "eq", a, b, node)
+                if isinstance(op, ast.Eq):
+                    return r
+                return (not r) if isinstance(r, bool) else _T("not", (r,))
+        if isinstance(op, (ast.Eq, ast.NotEq)):
+            # S1: the size of a subset of a finite set is 0 iff it is empty, and the size of the whole set iff it is the whole set
+            for x, y in ((a, b), (b, a)):
+                if isinstance(x, _T) and x.op == "len" and self.is_sym(st, x.args[0]) and isinstance(y, int) and not isinstance(y, bool):
+                    hs = st.heap[x.args[0].oid]
+                    r = None
+                    if y == 0:
+                        r = self.set_test(st, "eq", x.args[0], frozenset(), node)
+                    elif hs.elems is not None and all(self.hashable_known(e2) for e2 in hs.elems):
+                        r = self.set_test(st, "superset", x.args[0], frozenset(hs.elems), node) if y == len(hs.elems) else (False if y > len(hs.elems) else None)
+                    if r is not None:
+                        if isinstance(op, ast.Eq):
+                            return r
+                        return (not r) if isinstance(r, bool) else _T("not", (r,))
         if isinstance(op, ast.Eq):
             return self.cmp_eq(st, a, b)
         if isinstance(op, ast.NotEq):
@@ -1365,8 +1475,8 @@ class _Ev:
             # set comparisons
             sa = isinstance(a, _Ref) and isinstance(st.heap.get(a.oid), (_HSet, _HSym))
             sb = isinstance(b, _Ref) and isinstance(st.heap.get(b.oid), (_HSet, _HSym))
-            if (sa or isinstance(a, frozenset)) and (sb or isinstance(b, frozenset)) and isinstance(op, (ast.GtE, ast.LtE)):
-                return self.superset(st, a, b, node) if isinstance(op, ast.GtE) else self.superset(st, b, a, node)
+            if (sa or isinstance(a, frozenset)) and (sb or isinstance(b, frozenset)):
+                return self.set_test(st, {ast.GtE: "superset", ast.LtE: "subset", ast.Gt: "psuperset", ast.Lt: "psubset"}[type(op)], a, b, node)
             if isinstance(a, _En):
                 a = a.value
             if isinstance(b, _En):
@@ -3002,6 +3112,37 @@ def _subterms(v, depth=0):
     return out
 
 
+def _gate_atoms(universe, sets):
+    """The regions into which the constant sets (and the universe of the option set) cut everything they mention: two
+    elements are in the same atom iff no set separates them.  Every set is a union of atoms."""
+    allsets = list(sets) + [frozenset(universe)]
+    by_sig = {}
+    for x in frozenset().union(*allsets):
+        by_sig.setdefault(tuple(x in s for s in allsets), set()).add(x)
+    return sorted((frozenset(v) for v in by_sig.values()), key=lambda a: sorted(map(repr, a)))
+
+
+def _gate_test(kind, fs, removed, atoms, state):
+    """Value of `A \\ removed <kind> fs` when A holds none (E) / some (P) / all (F) of each atom (fs, removed: unions of atoms)."""
+    cur = ["E" if a <= removed else s for a, s in zip(atoms, state)]
+    sup = all(c == "F" for a, c in zip(atoms, cur) if a <= fs)
+    sub = all(c == "E" for a, c in zip(atoms, cur) if not a <= fs)
+    return {"superset": sup, "subset": sub, "eq": sup and sub, "psuperset": sup and not sub, "psubset": sub and not sup}[kind]
+
+
+def _gate_atom_name(a, ref_l):
+    for lab, g in ref_l:
+        if a == g:
+            return lab
+    el = sorted(map(str, a))
+    return "{" + ", ".join(el[:3]) + (", ..." if len(el) > 3 else "") + "}"
+
+
+def _gate_when(atoms, state, ref_l):
+    parts = [("all of " if s == "F" else "some but not all of ") + _gate_atom_name(a, ref_l) for a, s in zip(atoms, state) if s != "E"]
+    return "when " + (" and ".join(parts) if parts else "nothing") + " is enabled"
+
+
 def _gate_paths(ctx):
     an = _Analysis.of(ctx)
     return an.run("beacon.beacon_gate_options_string", "all flag vectors")
@@ -3023,21 +3164,21 @@ def r5(ctx):
     if stop is not None or not paths:
         give_up(f"evaluation stopped: {stop}" if stop else "no path")
         return
-    # what every path did: the superset tests on the option set (in order, with their outcome), what it returns
+    # what every path did: the set tests on the option set (in order, with their outcome), what it returns
     summaries = []
     foreign = []
     for p in paths:
         outcome = {}
         for nd, core, pol, _dec in p.st.forks:
-            if isinstance(core, _T) and core.op == "superset":
+            if isinstance(core, _T) and core.op == "settest":
                 outcome[core] = pol
             else:
                 foreign.append(src(nd)[:60])
         tests = []
         for e in p.st.events:
-            if e[0] == "superset":
-                r = e[3] if isinstance(e[3], bool) else outcome.get(e[3])
-                tests.append((e[1], frozenset(e[2]), r))
+            if e[0] == "settest":
+                r = e[5] if isinstance(e[5], bool) else outcome.get(e[5])
+                tests.append((e[1], frozenset(e[3]), r, e[2], frozenset().union(*e[4])))
         v = p.value
         o = p.st.heap.get(v.oid) if isinstance(v, _Ref) else None
         items = list(o.items) if isinstance(o, _HList) and not o.opaque else None
@@ -3045,14 +3186,18 @@ def r5(ctx):
     roots = {t[0] for tests, _i, _p in summaries for t in tests}
     if foreign or len(roots) != 1 or any(items is None or p.end != "return" for _t, items, p in summaries) or any(t[2] is None for tests, _i, _p in summaries for t in tests):
         give_up(f"the function tests {foreign[0]}, which the rule does not understand" if foreign else
-                "the superset tests on the set of enabled options / the returned list could not be located")
+                "the set tests on the set of enabled options / the returned list could not be located")
         return
     root = next(iter(roots))
-    # label -> group: the set whose successful test is followed by appending that label
+    hs = None
+    for o in paths[0].st.heap.values():
+        if isinstance(o, _HSym) and o.root == root:
+            hs = o
+    # label -> group: the set whose successful containment test is followed by appending that label
     group, labelled_bad = {}, []
     for tests, items, p in summaries:
         labs = [x for x in items if isinstance(x, str)]
-        true_sets = [t[1] for t in tests if t[2]]
+        true_sets = [t[1] for t in tests if t[2] and t[3] in ("superset", "psuperset", "eq") and t[1]]
         if len(labs) == len(true_sets):
             for lab, s in zip(labs, true_sets):
                 if group.setdefault(lab, s) != s:
@@ -3060,43 +3205,90 @@ def r5(ctx):
     groups = {k: (set(group[labels[k]]) if labels[k] in group else None) for k in ref}
     for k in ref:
         g = groups[k]
-        ctx.ob("R5", "TABLE", f, k, g == ref[k], f"group {k} (the set reported as {labels[k]!r}): " + ("not found" if g is None else f"missing {sorted(ref[k] - g)} extra {sorted(g - ref[k])}"))
+        if g is None:
+            ctx.undecided("R5", "TABLE", f, k, f"the set that is reported as {labels[k]!r} could not be located", f.node)
+        else:
+            ctx.ob("R5", "TABLE", f, k, g == ref[k], f"group {k} (the set reported as {labels[k]!r}): missing {sorted(ref[k] - g)} extra {sorted(g - ref[k])}")
     if all(g is not None for g in groups.values()):
         union = groups["comms"] | groups["core"] | groups["cleanup"]
         disj = len(union) == sum(len(g) for g in groups.values())
         ctx.ob("R5", "TABLE", f, "partition", disj and union == fields, f"groups are pairwise disjoint={disj} and cover the struct's fields={union == fields}")
-    # order of the tests and what each one reports and removes
-    want_labels = ["All", "Comms", "Core", "Cleanup"]
-    bad = []
-    rest_bad = []
+    else:
+        ctx.undecided("R5", "TABLE", f, "partition", "not all three groups could be located", f.node)
+    # What the function reports, compared with what the encoding prescribes, in every ABSTRACT STATE of the option set.
+    # The option set A is a free subset of its universe (which flags are enabled is not known).  The constant sets the
+    # code compares A with / removes from it, together with the three reference groups, cut the universe into atoms;
+    # per atom A holds none (E), some but not all (P; atoms of two or more elements) or all (F) of its elements.  Every
+    # test A \ removed  >= / <= / == / > / <  B  (B, removed: unions of atoms) has a definite value in such a state:
+    #   A' >= B  iff every atom of B is F and not removed;   A' <= B  iff every atom outside B is E or removed.
+    # Every state stands for at least one flag vector, all flag vectors of a state take the same path, and on that path
+    # the prescribed result is: 'All' alone if all three groups are F, else the labels of the F groups in the order
+    # Comms, Core, Cleanup, followed by A minus those groups.
+    universe = frozenset(hs.init) if hs is not None and hs.init is not None else frozenset(fields)
+    # S2 needs a FREE subset: no unconditional member, and the membership conditions pairwise different (independent flags)
+    try:
+        free = hs is None or hs.init is None or (all(c0 is not True for c0 in hs.init.values()) and len(set(hs.init.values())) == len(hs.init))
+    except TypeError:
+        free = False
+    csets = [frozenset(ref[k]) for k in ("comms", "core", "cleanup")]
     for tests, items, p in summaries:
-        sets = [t[1] for t in tests]
-        exp_sets = [group.get(lab) for lab in want_labels]
-        if None in exp_sets or sets != exp_sets:
-            names = {v: k for k, v in group.items()}
-            bad.append("tests in the order " + str([names.get(s, f"<set of {len(s)}>") for s in sets]))
-            continue
-        if group["All"] != group["Comms"] | group["Core"] | group["Cleanup"]:
-            bad.append("'All' is not the union of the three groups")
-            continue
-        exp_items = [lab for lab, t in zip(want_labels, tests) if t[2]]
-        exp_subs = tuple(t[1] for t in tests if t[2])
-        labs = [x for x in items if isinstance(x, str)]
-        rest = [x for x in items if not isinstance(x, str)]
-        if labs != exp_items or items[: len(labs)] != labs:
-            bad.append(f"reports {labs} when the successful tests are {exp_items}")
-        if len(rest) != 1 or not (isinstance(rest[0], _T) and rest[0].op == "rest" and rest[0].args[0] == root):
-            rest_bad.append("the options left over are not appended after the group labels")
-        elif tuple(rest[0].args[1]) != exp_subs:
-            bad.append(f"after reporting {exp_items} the sets removed from the options are {[len(s) for s in rest[0].args[1]]} (sizes), not the reported groups")
-    ctx.ob("R5", "AGREE", f, "group tests", not bad and not labelled_bad, f"on all {len(summaries)} outcomes of the group tests: All (the union) first, then Comms, Core, Cleanup, each reporting its label and removing what it reported"
-           if not bad and not labelled_bad else (bad[0] if bad else f"label {labelled_bad[0]} is reported for different sets"))
-    ctx.ob("R5", "AGREE", f, "remaining options", not rest_bad, "left-over individual APIs are appended after the groups" if not rest_bad else rest_bad[0])
+        for t in tests:
+            csets.append(t[1])
+        for e in p.st.events:
+            if e[0] == "sub" and e[1] == root:
+                csets.append(frozenset(e[2]))
+    csets = list(dict.fromkeys(csets))
+    atoms = _gate_atoms(universe, csets)
+    choices = [("E",) if not a <= universe else (("E", "P", "F") if len(a) > 1 else ("E", "F")) for a in atoms]
+    nstates = 1
+    for c in choices:
+        nstates *= len(c)
+    shapes_ok = all(all(isinstance(x, str) or (isinstance(x, _T) and x.op == "rest" and x.args[0] == root) for x in items) for _t, items, _p in summaries)
+    if not free or nstates > 20000 or not shapes_ok:
+        why = ("some options are in the option set unconditionally, or under the same condition as another one" if not free else
+               f"{len(atoms)} different regions of the option universe are distinguished by the code's sets" if nstates > 20000 else
+               "the returned list holds something other than labels and the left-over options")
+        ctx.undecided("R5", "AGREE", f, "group tests", why, f.node)
+        ctx.undecided("R5", "AGREE", f, "remaining options", why, f.node)
+    else:
+        ref_l = [("Comms", frozenset(ref["comms"])), ("Core", frozenset(ref["core"])), ("Cleanup", frozenset(ref["cleanup"]))]
+        bad, rest_bad, unsure = [], [], []
+        for state in itertools.product(*choices):
+            feasible = [(tests, items) for tests, items, _p in summaries if all(_gate_test(t[3], t[1], t[4], atoms, state) == t[2] for t in tests)]
+            when = _gate_when(atoms, state, ref_l)
+            if len(feasible) != 1:
+                unsure.append(f"{when}: the outcomes of the set tests single out {len(feasible)} paths")
+                continue
+            tests, items = feasible[0]
+            full = [lab for lab, g in ref_l if all(state[i] == "F" for i, a in enumerate(atoms) if a <= g)]
+            exp_labels = ["All"] if len(full) == len(ref_l) else full
+            exp_removed = frozenset().union(*[g for lab, g in ref_l if lab in full])
+            labs = [x for x in items if isinstance(x, str)]
+            rests = [x for x in items if not isinstance(x, str)]
+            if labs != exp_labels or items[: len(labs)] != labs:
+                bad.append(f"{when}: reports {labs if items[: len(labs)] == labs else '<labels after the left-over options>'}, the encoding prescribes {exp_labels}")
+                continue
+            removed = [frozenset().union(*x.args[1]) for x in rests]
+            for i, a in enumerate(atoms):
+                if state[i] == "E":
+                    continue
+                listed = sum(1 for r in removed if not a <= r)
+                want = 0 if a <= exp_removed else 1
+                if listed != want:
+                    name = _gate_atom_name(a, ref_l)
+                    msg = f"{when}: after {labs} the enabled APIs of {name} are listed individually {listed} time(s) instead of {want}"
+                    (rest_bad if not rests else bad).append(msg)
+                    break
+        if unsure and not bad and not rest_bad:
+            ctx.undecided("R5", "AGREE", f, "group tests", unsure[0], f.node)
+            ctx.undecided("R5", "AGREE", f, "remaining options", unsure[0], f.node)
+        else:
+            ctx.ob("R5", "AGREE", f, "group tests", not bad and not labelled_bad,
+                   f"in all {nstates} abstract states of the option set (none / some / all of each of {len(atoms)} regions enabled) the path taken reports 'All' alone when everything is enabled, else the labels "
+                   "of the completely enabled groups in the order Comms, Core, Cleanup, and removes exactly the reported groups" if not bad and not labelled_bad else
+                   (bad[0] if bad else f"label {labelled_bad[0]} is reported for different sets"))
+            ctx.ob("R5", "AGREE", f, "remaining options", not rest_bad, "left-over individual APIs are listed after the groups (or nothing is left over)" if not rest_bad else rest_bad[0])
     # the option set is built from the truthy flags of the parsed struct
-    hs = None
-    for o in paths[0].st.heap.values():
-        if isinstance(o, _HSym) and o.root == root:
-            hs = o
     bgo_p = params(f.node)[0]
     if hs is None:
         ctx.undecided("R5", "AGREE", f, "options = {enabled flags}", "the set of enabled options could not be located", f.node)
@@ -3917,3 +4109,292 @@ def _setting_keys(ctx, f):
         for _nd, core, _pol, _dec in st.forks:
             walk(core)
     return keys
+
+
+# ----------------------------------------------------------------------------------------------- R11
+# Every decode hands out a value of its own.  "For every well-formed encoding the decoded value is precisely the
+# sequence of steps that was encoded" has to hold for every decode, also the second one of the same encoding: a decoder
+# whose result object is kept somewhere that outlives the call (a memoising decorator, a module-level table, a mutable
+# default argument, a function attribute) and handed out again returns whatever an earlier caller left in it.  That is
+# harmless exactly when the object cannot be modified.  The rule locates the places where a decoder's result is retained
+# (device 1: decorators resolved through the import table, stores into / loads from names that are not locals of the
+# function) and classifies the retained value by the defining expressions it can come from (device 3: def-use chains).
+_MEMOISERS = {"functools.lru_cache", "functools.cache", "lru_cache", "cache"}
+_TRANSPARENT_DECORATORS = {"staticmethod", "classmethod", "functools.wraps", "wraps"}
+_MUTABLE_CALLS = {"list", "dict", "set", "bytearray", "sorted", "OrderedDict", "collections.OrderedDict", "defaultdict", "collections.defaultdict",
+                  "deque", "collections.deque", "Counter", "collections.Counter"}
+_IMMUTABLE_CALLS = {"bytes", "str", "int", "bool", "float", "len", "tuple", "frozenset", "hex", "repr", "format", "sum", "min", "max", "abs", "ord", "chr",
+                    "hash", "any", "all", "MappingProxyType", "types.MappingProxyType"}
+_IMMUTABLE_METHODS = {"decode", "encode", "hex", "hexdigest", "digest", "format", "join", "strip", "rstrip", "lstrip", "lower", "upper", "replace", "title",
+                      "zfill", "to_bytes", "removeprefix", "removesuffix", "tobytes", "read", "getvalue", "ljust", "rjust", "capitalize"}
+_STORING_METHODS = {"append", "add", "insert", "setdefault", "update", "extend", "__setitem__", "appendleft", "put"}
+_LOADING_METHODS = {"get", "setdefault", "__getitem__"}
+
+
+def _join_mut(vals):
+    vals = list(vals)
+    if any(v == "mutable" for v in vals):
+        return "mutable"
+    return "immutable" if vals and all(v == "immutable" for v in vals) else None
+
+
+def _mutability(ctx, f, e, depth=0, seen=None):
+    """Can the object that expression e of function f (None: module level) denotes be modified in place?
+    'mutable' / 'immutable' / None (not known), from the expressions that may define it."""
+    from csverif.q import all_origins
+
+    seen = set() if seen is None else seen
+    if e is None or depth > 8 or id(e) in seen:
+        return None
+    seen.add(id(e))
+    origins = all_origins(f.node, e) if f is not None else [e]
+    out = []
+    for o in origins:
+        if o is not e and id(o) in seen:
+            continue  # the accumulator pattern x = x + [..]: the other definitions decide
+        sub = lambda x: _mutability(ctx, f, x, depth + 1, seen)  # noqa: E731
+        if isinstance(o, (ast.List, ast.ListComp, ast.Dict, ast.DictComp, ast.Set, ast.SetComp)):
+            out.append("mutable")
+        elif isinstance(o, (ast.Constant, ast.JoinedStr, ast.Compare, ast.Lambda)) or (isinstance(o, ast.UnaryOp) and isinstance(o.op, ast.Not)):
+            out.append("immutable")
+        elif isinstance(o, ast.Tuple):
+            out.append(_join_mut([sub(x) for x in o.elts]) if o.elts else "immutable")
+        elif isinstance(o, ast.IfExp):
+            out.append(_join_mut([sub(o.body), sub(o.orelse)]))
+        elif isinstance(o, ast.BoolOp):
+            out.append(_join_mut([sub(x) for x in o.values]))
+        elif isinstance(o, ast.BinOp):
+            if isinstance(o.op, ast.Mod) and isinstance(o.left, ast.Constant):
+                out.append("immutable")
+            else:
+                out.append(_join_mut([sub(o.left), sub(o.right)]))
+        elif isinstance(o, ast.Subscript):
+            base = sub(o.value)
+            out.append("mutable" if base == "mutable" and isinstance(o.slice, ast.Slice) else ("immutable" if base == "immutable" else None))
+        elif isinstance(o, ast.Call):
+            d = dotted(o.func)
+            if d in _MUTABLE_CALLS:
+                out.append("mutable")
+            elif d in _IMMUTABLE_CALLS:
+                out.append("immutable")
+            elif isinstance(o.func, ast.Attribute) and o.func.attr in _IMMUTABLE_METHODS:
+                out.append("immutable")
+            elif isinstance(o.func, ast.Attribute) and o.func.attr == "copy":
+                out.append(sub(o.func.value))
+            else:
+                cal = ctx.rs.resolve_call(f, o) if f is not None else None
+                if cal is not None and cal.kind == "func" and cal.func is not None and not isinstance(cal.func.node, ast.Lambda):
+                    from csverif.q import returns_of
+                    out.append(_join_mut([_mutability(ctx, cal.func, r.value, depth + 1, seen) if r.value is not None else "immutable" for r in returns_of(cal.func)]))
+                else:
+                    out.append(None)
+        else:
+            out.append(None)
+    return _join_mut(out)
+
+
+def _persistent_roots(ctx, f):
+    """predicate: is the name `n`, used in f, a place that outlives a call of f?  (not a local of f - a module-level
+    object, a function object, a `global` - or a parameter whose default value is a mutable object)"""
+    fn = f.node
+    declared = {n for s in ast.walk(fn) if isinstance(s, (ast.Global, ast.Nonlocal)) for n in s.names}
+    local = set(_Ev._locals(fn)) - declared
+    defaults = param_defaults(fn)
+    builtin = set(_BUILTIN_NAMES)
+
+    def persistent(name):
+        if name in local:
+            return name in defaults and defaults[name] is not None and _mutability(ctx, None, defaults[name]) == "mutable"
+        return name not in builtin
+
+    return persistent, declared
+
+
+def _root_name(e):
+    while isinstance(e, (ast.Attribute, ast.Subscript)):
+        e = e.value
+    return e.id if isinstance(e, ast.Name) else None
+
+
+def _result_aliases(fn, rets):
+    """local names that may denote the object a `return` hands out (closure over plain copies a = b)"""
+    names = {r.value.id for r in rets if isinstance(r.value, ast.Name)}
+    copies = [(t.id, s.value.id) for s in body_walk(fn) if isinstance(s, ast.Assign) and isinstance(s.value, ast.Name) for t in s.targets if isinstance(t, ast.Name)]
+    changed = True
+    while changed:
+        changed = False
+        for a, b in copies:
+            if (a in names) != (b in names):
+                names |= {a, b}
+                changed = True
+    return names
+
+
+def _holds(e, names):
+    """does expression e denote one of `names`, or a display that holds one of them?"""
+    if isinstance(e, ast.Name):
+        return e.id in names
+    if isinstance(e, (ast.Tuple, ast.List, ast.Set)):
+        return any(_holds(x, names) for x in e.elts)
+    if isinstance(e, ast.Dict):
+        return any(_holds(x, names) for x in e.values if x is not None)
+    return False
+
+
+def _retained(ctx, f):
+    """Where the object returned by f is kept beyond the call: [(node, text, expression whose object is kept | None)]"""
+    from csverif.q import all_origins, returns_of
+
+    fn = f.node
+    out = []
+    rets = [r for r in returns_of(f) if r.value is not None]
+    for d in getattr(fn, "decorator_list", []):
+        name = dotted(d.func if isinstance(d, ast.Call) else d)
+        s = ctx.rs.lookup_dotted(f.module.name, name) if name else None
+        full = (s.name if s is not None and s.kind == "external" else name) or src(d)
+        if full in _MEMOISERS:
+            for r in rets:
+                out.append((d, f"the memoising decorator @{src(d)[:50]}", r.value))
+        elif full not in _TRANSPARENT_DECORATORS:
+            out.append((d, f"the decorator @{src(d)[:50]}, which the rule does not know", None))
+    persistent, declared = _persistent_roots(ctx, f)
+    aliases = _result_aliases(fn, rets)
+    for s in body_walk(fn):
+        if isinstance(s, (ast.Assign, ast.AnnAssign)) and s.value is not None and _holds(s.value, aliases):
+            for t in (s.targets if isinstance(s, ast.Assign) else [s.target]):
+                root = _root_name(t)
+                if isinstance(t, (ast.Subscript, ast.Attribute)) and root is not None and persistent(root):
+                    out.append((s, f"the store {src(s)[:60]} into {root}, which outlives the call,", s.value))
+                elif isinstance(t, ast.Name) and t.id in declared:
+                    out.append((s, f"the store into the global {t.id}", s.value))
+        elif isinstance(s, ast.Call) and isinstance(s.func, ast.Attribute) and s.func.attr in _STORING_METHODS:
+            root = _root_name(s.func.value)
+            vals = list(s.args) + [k.value for k in s.keywords]
+            if root is not None and persistent(root) and root not in aliases and any(_holds(v, aliases) for v in vals):
+                out.append((s, f"the call {src(s)[:60]} on {root}, which outlives the call,", next(v for v in vals if _holds(v, aliases))))
+    for r in rets:
+        for o in all_origins(fn, r.value):
+            root = None
+            if isinstance(o, ast.Subscript) and not isinstance(o.slice, ast.Slice):
+                root = _root_name(o)
+            elif isinstance(o, ast.Call) and isinstance(o.func, ast.Attribute) and o.func.attr in _LOADING_METHODS:
+                root = _root_name(o.func.value)
+            elif isinstance(o, ast.Name) and o.id in f.module.consts:
+                root = o.id
+            if root is None or not persistent(root) or root not in f.module.consts and root not in declared and root not in _Ev._locals(fn) and not ctx.repo.has_func(f"{f.module.name}.{root}"):
+                continue
+            if isinstance(o, ast.Name):
+                kept = f.module.consts[o.id]
+                out.append((r, f"the module-level name {o.id} (it is the returned object itself)", ("module", kept)))
+            else:
+                out.append((r, f"{root}, which outlives the call and out of which the result is taken ({src(o)[:50]}),", ("stored-in", root)))
+    return out
+
+
+def _stored_values(ctx, f, root):
+    """the mutability of what the functions of f's module (and the module-level definition) put into container `root`"""
+    vals = []
+    const = f.module.consts.get(root)
+    if isinstance(const, ast.Dict):
+        vals.extend(_mutability(ctx, None, v) for v in const.values)
+    elif isinstance(const, (ast.List, ast.Tuple, ast.Set)):
+        vals.extend(_mutability(ctx, None, v) for v in const.elts)
+    for g in f.module.funcs.values():
+        if isinstance(g.node, ast.Lambda):
+            continue
+        for s in body_walk(g.node):
+            if isinstance(s, ast.Assign):
+                for t in s.targets:
+                    if isinstance(t, ast.Subscript) and _root_name(t) == root:
+                        vals.append(_mutability(ctx, g, s.value))
+            elif isinstance(s, ast.Call) and isinstance(s.func, ast.Attribute) and s.func.attr in _STORING_METHODS and _root_name(s.func.value) == root:
+                vals.extend(_mutability(ctx, g, a) for a in (s.args[-1:] if s.func.attr in ("setdefault", "insert", "__setitem__") else s.args))
+    return _join_mut(vals) if vals else None
+
+
+def _decoders(ctx):
+    """The package functions that decode a structured setting: those the entries of SETTING_TO_PRETTYFUNC refer to, and
+    the package functions whose result these return as it is.  {fq: Func}, plus memoising wrappers applied at module level:
+    {fq: node}."""
+    from csverif.q import all_origins, returns_of
+
+    mod = ctx.repo.module("beacon")
+    tbl = ctx.repo.const("beacon.SETTING_TO_PRETTYFUNC")
+    found = {}
+
+    def func_of(node):
+        d = dotted(node)
+        s = ctx.rs.lookup_dotted("beacon", d) if d else None
+        if s is not None and s.kind in ("func", "partial") and s.module in ctx.repo.modules:
+            return ctx.repo.modules[s.module].funcs.get(s.name)
+        return None
+
+    for n in ast.walk(tbl):
+        if isinstance(n, (ast.Name, ast.Attribute)):
+            g = func_of(n)
+            if g is not None and not isinstance(g.node, ast.Lambda):
+                found[g.fq] = g
+    work = list(found.values())
+    while work:
+        f = work.pop()
+        for r in returns_of(f):
+            for o in (all_origins(f.node, r.value) if r.value is not None else []):
+                if isinstance(o, ast.Call):
+                    cal = ctx.rs.resolve_call(f, o)
+                    if cal.kind == "func" and cal.func is not None and not isinstance(cal.func.node, ast.Lambda) and cal.func.fq not in found:
+                        found[cal.func.fq] = cal.func
+                        work.append(cal.func)
+    wrapped = {}
+    for value in mod.consts.values():
+        for c in ast.walk(value):
+            if not isinstance(c, ast.Call):
+                continue
+            maker = c.func.func if isinstance(c.func, ast.Call) else c.func
+            d = dotted(maker)
+            s = ctx.rs.lookup_dotted("beacon", d) if d else None
+            full = (s.name if s is not None and s.kind == "external" else d) or ""
+            if full in _MEMOISERS:
+                for a in c.args:
+                    g = func_of(a)
+                    if g is not None and g.fq in found:
+                        wrapped[g.fq] = c
+    return found, wrapped
+
+
+def r11(ctx):
+    from csverif.q import returns_of
+
+    found, wrapped = _decoders(ctx)
+    ctx.rep.count("setting_decoders", len(found), floor=8)
+    text = "every decode returns a value of its own"
+    for fq in sorted(found):
+        f = found[fq]
+        kept = _retained(ctx, f)
+        if fq in wrapped:
+            kept.extend((wrapped[fq], f"the memoising wrapper {src(wrapped[fq])[:60]} applied to it at module level", r.value) for r in returns_of(f) if r.value is not None)
+        if not kept:
+            ctx.ob("R11", "ALIAS", f, text, True, "the returned object is built by the call and kept nowhere that outlives it (no memoising decorator, no store into / load from "
+                   "a module-level object, a global, a function attribute or a mutable default argument)", f.node)
+            continue
+        verdicts = []
+        for node, how, what in kept:
+            if what is None:
+                m = None
+            elif isinstance(what, tuple) and what[0] == "module":
+                m = _mutability(ctx, None, what[1])
+            elif isinstance(what, tuple) and what[0] == "stored-in":
+                m = _stored_values(ctx, f, what[1])
+            else:
+                m = _mutability(ctx, f, what)
+            verdicts.append((m, node, how))
+        bad = [v for v in verdicts if v[0] == "mutable"]
+        unknown = [v for v in verdicts if v[0] is None]
+        if bad:
+            _m, node, how = bad[0]
+            ctx.ob("R11", "ALIAS", f, text, False, f"the decoded value is a mutable object and {how} keeps it and hands the same object to later decodes: what one caller "
+                   "does to its result (reverse, append, del ...) is what the next decode of that encoding returns instead of the encoded steps", node)
+        elif unknown:
+            _m, node, how = unknown[0]
+            ctx.undecided("R11", "ALIAS", f, text, f"{how} may keep the decoded value; whether that value can be modified in place is not known", node)
+        else:
+            ctx.ob("R11", "ALIAS", f, text, True, f"the decoded value is kept beyond the call ({verdicts[0][2]}) but cannot be modified in place", f.node)
